@@ -24,6 +24,7 @@ import (
 	"io"
 	"net/http"
 	"net/url"
+	"slices"
 	"strings"
 	"time"
 
@@ -347,9 +348,18 @@ func (a *remoteAuthorizer) calculateCacheKey(sub *subject.Subject, values map[st
 	hash.Write(ttlBytes)
 	hash.Write(sub.Hash())
 
-	for k, v := range values {
+	names := make([]string, 0, len(values))
+	for k := range values {
+		names = append(names, k)
+	}
+
+	slices.Sort(names)
+
+	for _, k := range names {
 		hash.Write(stringx.ToBytes(k))
-		hash.Write(stringx.ToBytes(v))
+		hash.Write([]byte{0})
+		hash.Write(stringx.ToBytes(values[k]))
+		hash.Write([]byte{0})
 	}
 
 	return hex.EncodeToString(hash.Sum(nil))
